@@ -202,8 +202,15 @@ func (g *seqGen) existingName(d *gobj) string {
 
 func (g *seqGen) offset(big bool) (int, bool, uint64) {
 	const B = 4096
+	if g.cfg.Profile == "crashbig" && g.r.Intn(3) == 0 {
+		return []int{100 * B, 200 * B, 250*B + 100}[g.r.Intn(3)], false, 0 // files beyond 511 blocks: truncation goes to the background shrinker
+	}
 	if g.cfg.Profile == "crash" || g.cfg.Profile == "crashbig" || g.cfg.Profile == "crashun" {
 		c := []int{0, 0, 1, 100, B - 1, B, B + 1, 2 * B, 3*B + 5, 7 * B, 8*B - 1, 8 * B, 9 * B, 12*B + 7}
+		if g.r.Intn(8) == 0 {
+			// sparse and far out: a later truncation frees more than one transaction holds and goes to the background shrinker
+			return []int{530 * B, 540*B + 5}[g.r.Intn(2)], false, 0
+		}
 		return c[g.r.Intn(len(c))], false, 0
 	}
 	bounds := []int{0, 1, 100, B - 1, B, B + 1, 2 * B, 7*B + 5, 8*B - 1, 8 * B, 8*B + 1, 9 * B, 100 * B, 519*B + 7, 520*B - 1, 520 * B, 520*B + 1, 521 * B, 1032 * B, 1033*B + 9}
@@ -537,8 +544,17 @@ func (g *seqGen) step() {
 		c.Cookie = g.someCookie(c.Fh)
 	}
 	c.NLen, c.NLen2 = len(c.Name), len(c.Name2)
-	g.emit(c)
+	c = g.emit(c)
 	g.learn(c)
+	if g.cfg.Profile == "crashun" && c.Proc == "WRITE" && c.St == "OK" && c.Stable == 0 && g.r.Intn(3) == 0 {
+		// UNSTABLE write, a read-only look at the file, COMMIT: the data must be durable afterwards
+		ro := NewCall([]string{"GETATTR", "READ"}[g.r.Intn(2)])
+		ro.Fh, ro.Cnt = c.Fh, 100
+		g.emit(ro)
+		cm := NewCall("COMMIT")
+		cm.Fh = c.Fh
+		g.emit(cm)
+	}
 }
 
 func (g *seqGen) someCookie(fh string) int {
